@@ -221,6 +221,19 @@ def unclosed_ref(s, i):
     return True
 
 
+def closing_ref(s, i):
+    """index of the closing delimiter of a string opened at i (backslash-quote pairs skipped), or None"""
+    j = i + 1
+    while j < len(s):
+        if s[j] == "\\" and j + 1 < len(s) and s[j + 1] == "\"":
+            j += 2
+        elif s[j] == "\"":
+            return j
+        else:
+            j += 1
+    return None
+
+
 def _key(toks):
     out = []
     for t in toks:
@@ -319,6 +332,11 @@ def relations(s, toks, exc, T, ws_choices):
         elif tag == "string":
             if not (len(lex) >= 2 and lex[0] == "\"" and lex[-1] == "\"" and meta.get("value") == lex[1:-1]):
                 bad.append((dict(kind="lexeme", what="string"), "string token %r over lexeme %r" % (meta.get("value"), lex)))
+            elif closing_ref(s, b) != e - 1:
+                cl = closing_ref(s, b)
+                bad.append((dict(kind="string-extent", what="unclosed-accepted" if cl is None else "wrong-closing-delimiter"),
+                            "string opened at %d ends at %d, but %s" % (b, e - 1, "it has no closing delimiter (must be reported unclosed at %d)" % b
+                                                                        if cl is None else "its closing delimiter is at %d" % cl)))
         elif tag == "instant" and "value" in meta:
             if not (len(lex) >= 2 and lex[0] == "#" and lex[-1] == "#" and meta["value"] == lex[1:-1] and "#" not in lex[1:-1]):
                 bad.append((dict(kind="lexeme", what="instant"), "instant token %r over lexeme %r" % (meta["value"], lex)))
